@@ -28,14 +28,22 @@ def run(item):
             return dict(status="does not build: " + b.stderr[-300:], rules={})
         rules = {}
         shutil.copy(os.path.join(VERIF, "KNOWN_FINDINGS.txt"), tmp)  # listed findings stay listed on the variants
-        for p in PROPS:
-            c = subprocess.run([os.path.join(VERIF, "bin", "wscheck"), "-repo", dst, "-verif", tmp, "-prop", p, "-evidence", os.path.join(tmp, p + ".json")],
-                               env=ENV, capture_output=True, text=True)
-            if c.returncode != 0:
-                rs = sorted(set(l.split("rule ")[1].split(" ")[0] for l in c.stdout.splitlines() if ": rule " in l))
-                if "undecided" in c.stdout:
-                    rs.append("undecided")
-                rules[p] = rs or ["?"]
+        # one process for all properties (WSCHECK_SHARE=1: the variant tree is loaded once)
+        os.makedirs(os.path.join(tmp, "evidence"), exist_ok=True)
+        c = subprocess.run([os.path.join(VERIF, "bin", "wscheck"), "-repo", dst, "-verif", tmp, "-prop", "all" if len(PROPS) > 1 else PROPS[0]],
+                           env=dict(ENV, WSCHECK_SHARE="1"), capture_output=True, text=True)
+        cur = None
+        sets = {}
+        for l in c.stdout.splitlines():
+            if l.startswith("VIOLATION property="):
+                cur = l.split("property=")[1].split(" ")[0]
+                sets.setdefault(cur, set())
+            elif ": rule " in l and cur:
+                sets[cur].add(l.split("rule ")[1].split(" ")[0])
+            elif "undecided" in l and cur:
+                sets[cur].add("undecided")
+        for p, rs in sets.items():
+            rules[p] = sorted(rs) or ["?"]
         return dict(status="ok", rules=rules)
     finally:
         shutil.rmtree(tmp, ignore_errors=True)
